@@ -1,6 +1,6 @@
 SPECIFICATION MCSpec
 CONSTANTS FlagFirst = TRUE
-          MaxObs = 3
+          MaxObs = 4
 INVARIANTS TypeOK ObserveOK NoDataRace FlagMeaning InitBeforeStart JoinedMeansExited
 ACTION_CONSTRAINT EdgeOut
 CHECK_DEADLOCK FALSE
